@@ -15,7 +15,7 @@ TRUSTED = ["Model/Tracking.v calculate_velocity and Model/ForceSys.v set_velocit
            "fmatrix.set_velocity_matrix by exact rational correspondence (dyadic coordinates, power-of-two time steps)"]
 ASSUMPTIONS = ["mean junction speed compared with tolerance 1e-12 (one sqrt per junction)"]
 TESTED_NOT_PROVED = ["the adimensional division (mean Euclidean norm) and the reported system velocity are evaluated by the oracle"]
-IMPORTS = "From Forsys Require Import Model.CaseUtil Model.PyList Model.ForceSys Model.Tracking.\n"
+IMPORTS = "From Forsys Require Import Model.Num Model.CaseUtil Model.PyList Model.ForceSys Model.Tracking Model.Velocity.\n"
 
 
 def check_series(res, specs, times, truth, jump, rng, exprs, label):
@@ -83,6 +83,16 @@ def check_series(res, specs, times, truth, jump, rng, exprs, label):
             if nrows and div != 0 and np.max(np.abs(b - exp_b)) > 1e-9 * (1 + np.max(np.abs(exp_b))):
                 k = int(np.argmax(np.abs(b - exp_b)))
                 bad.append(f"frame {t} adimensional={adim}: right-hand side entry {k} is {b[k]} expected {exp_b[k]}")
+            # correspondence of the normalisation step (PrimFloat instance of Model/Velocity.v): the velocity vectors of the used
+            # junctions and the raw right-hand side go in, the scaled right-hand side and the normaliser must come out
+            if nrows and used:
+                vs_l = "[" + "; ".join(f"({C.flit(float(ts.calculate_velocity(v, t)[0]))}, {C.flit(float(ts.calculate_velocity(v, t)[1]))})" for v in used) + "]"
+                raw = np.zeros(nrows)
+                for v, r in used.items():
+                    vv = ts.calculate_velocity(v, t)
+                    raw[r], raw[r + 1] = vv[0], vv[1]
+                exprs.append((f"let '(bb, avg) := velocity_matrix FOps {'true' if adim else 'false'} {vs_l} [{'; '.join(C.flit(float(x)) for x in raw)}] {C.flit(vn)} in "
+                              f"listF_close 1e-9 bb [{'; '.join(C.flit(float(x)) for x in b)}] && fclose 1e-9 avg {C.flit(float(avg))}", replay))
         b0, avg0 = fm.set_velocity_matrix(ts)
         if np.any(np.array(b0) != 0) or avg0 != 1:
             bad.append(f"frame {t}: static mode right-hand side is not zero")
